@@ -11,7 +11,7 @@ an op that is not applicable in the current state is skipped, which keeps shrink
   ["send", ep, ch, "s"|"b", size, salt]   message content is derived from (ep,ch,counter)
   ["close", ep, ch]
   ["threshold", ep, ch, value]
-  ["clock", milliseconds]
+  ["clock", ticks]                    advance the scripted clock (ticks of 1/1024 s)
   ["stop", ep]
   ["heal"]                            fault-free continuation until quiescent (C02)
 """
@@ -35,7 +35,7 @@ def message(kind, size, salt):
 class World:
     def __init__(self, case):
         self.case = case
-        sim.Clock.now = 1000.0
+        sim.Clock.ticks = 1024000
         self.ep = {
             "A": sim.Endpoint("A", "controlling", case["tagA"], case["tsnA"]),
             "B": sim.Endpoint("B", "controlled", case["tagB"], case["tsnB"]),
@@ -53,6 +53,7 @@ class World:
         for d in ep.outbox:
             self.net[other].append(d)
         self.trace[name].append({
+            "now": sim.Clock.ticks,
             "in": inp,
             "exc": exc,
             "tx": list(ep.outbox),
@@ -66,10 +67,7 @@ class World:
         """Apply one op; False if it was not applicable (skipped)."""
         k = op[0]
         if k == "clock":
-            sim.Clock.now += op[1] / 1000.0
-            for n in "AB":
-                self.trace[n].append({"in": ["clock", op[1]], "exc": None, "tx": [], "log": [], "events": [],
-                                      "public": self.ep[n].public()})
+            sim.Clock.ticks += op[1]
             return True
         if k == "heal":
             self.heal()
@@ -119,8 +117,9 @@ class World:
         if k == "create":
             if ep.t.state == "closed":
                 return False
+            n0 = len(ep.channels)
             exc = ep.create(**op[2])
-            self._after(name, ["create", op[2]], exc)
+            self._after(name, ["create", op[2], len(ep.channels) > n0], exc)
             return True
         if k == "send":
             i = op[2]
@@ -256,7 +255,7 @@ def random_ops(rng, case, n_steps, profile):
             do(["close", name, rng.randrange(len(ep.channels))])
             continue
         if r < 0.985:
-            do(["clock", rng.choice([1, 10, 100, 1000, 3000])])
+            do(["clock", rng.choice([1, 10, 100, 1000, 3000, 70000])])
             continue
         # default: run a task or deliver
         if ep.tasks:
